@@ -33,9 +33,8 @@ theorem Cli.accept_io {c : Cli} {p : Bytes} (rc : Nat) (h : CInv c p) : CInv (c.
   simp only
   split
   · exact ⟨h1.safe, h1.tx, h1.rx, h1.wtx, h1.wrx⟩
-  · split
-    · exact Cli.reopen_io h1
-    · exact h1
+  · exact Cli.reopen_io h1
+  · exact h1
 
 theorem Cli.hsFault_io {c : Cli} {p : Bytes} (code : Nat) (h : CInv c p) : CInv (c.hsFault code).1 p := by
   unfold Cli.hsFault
@@ -61,8 +60,10 @@ theorem Cli.connect_io {c : Cli} {p : Bytes} (rc : Nat) (h : CInv c p) : CInv (c
     generalize (if c.accepted then c else c.accept rc) = c1 at h1
     simp only
     split
-    · exact Cli.handshake_io h1
     · exact h1
+    · split
+      · exact Cli.handshake_io h1
+      · exact h1
 
 theorem Cli.serviceConnect_io {c : Cli} {p : Bytes} (rc : Nat) (h : CInv c p) : CInv (c.serviceConnect rc).1 p := by
   unfold Cli.serviceConnect
